@@ -16,7 +16,24 @@ sys.path.insert(0, os.path.dirname(os.path.abspath(__file__)))
 import vrun
 
 VERIF = vrun.VERIF
-REG = json.load(open(os.path.join(VERIF, "contracts", "registry.json")))
+def load_registry():
+    """every template declares the properties it serves in a `//@ props: C01,C03` header line"""
+    import glob
+    units = {}
+    for d in ("units", "lemmas"):
+        for f in sorted(glob.glob(os.path.join(VERIF, "contracts", d, "*.vt"))):
+            head = open(f).read(2000)
+            m = re.search(r"^//@ props:\s*(.*)$", head, re.M)
+            if not m:
+                continue
+            units[os.path.basename(f)[:-3]] = dict(
+                template=os.path.relpath(f, VERIF), engine="verus",
+                properties=[x.strip() for x in m.group(1).split(",") if x.strip()],
+                thorough_only="//@ thorough-only" in head)
+    return {"units": units}
+
+
+REG = load_registry()
 
 
 def load_known():
